@@ -142,7 +142,62 @@ pub const VARIANTS: &[&str] = &[
     // identity key = neutral point of the curve, signature (R = neutral, s = 0): verifies for any
     // message under cofactorless non-strict ed25519 verification
     "small_order_identity_key",
+    // the eight small-order points of the curve in canonical and non-canonical encodings as
+    // identity key; the rogue grinds its session static key until (R small-order, s = 0) verifies
+    // under cofactorless non-strict verification
+    "weak_key:0", "weak_key:1", "weak_key:2", "weak_key:3", "weak_key:4", "weak_key:5", "weak_key:6",
+    "weak_key:7", "weak_key:8", "weak_key:9", "weak_key:10", "weak_key:11", "weak_key:12", "weak_key:13",
 ];
+
+fn hex32(s: &str) -> [u8; 32] {
+    let mut o = [0u8; 32];
+    for i in 0..32 {
+        o[i] = u8::from_str_radix(&s[2 * i..2 * i + 2], 16).unwrap();
+    }
+    o
+}
+
+/// Encodings that decompress to a point of order 1, 2, 4 or 8 (canonical ones first).
+fn weak_encodings() -> Vec<[u8; 32]> {
+    [
+        "0100000000000000000000000000000000000000000000000000000000000000", // neutral
+        "ecffffffffffffffffffffffffffffffffffffffffffffffffffffffffffff7f", // order 2
+        "0000000000000000000000000000000000000000000000000000000000000000", // order 4
+        "0000000000000000000000000000000000000000000000000000000000000080", // order 4
+        "c7176a703d4dd84fba3c0b760d10670f2a2053fa2c39ccc64ec7fd7792ac037a", // order 8
+        "c7176a703d4dd84fba3c0b760d10670f2a2053fa2c39ccc64ec7fd7792ac03fa", // order 8
+        "26e8958fc2b227b045c3f489f2ef98f0d5dfac05d3c63339b13802886d53fc05", // order 8
+        "26e8958fc2b227b045c3f489f2ef98f0d5dfac05d3c63339b13802886d53fc85", // order 8
+        // non-canonical: neutral with the sign bit, y = p + 1, y = p + 1 with the sign bit
+        "0100000000000000000000000000000000000000000000000000000000000080",
+        "eeffffffffffffffffffffffffffffffffffffffffffffffffffffffffffff7f",
+        "eeffffffffffffffffffffffffffffffffffffffffffffffffffffffffffffff",
+        // order 2 with the sign bit, y = p (order 4) without / with the sign bit
+        "ecffffffffffffffffffffffffffffffffffffffffffffffffffffffffffffff",
+        "edffffffffffffffffffffffffffffffffffffffffffffffffffffffffffff7f",
+        "edffffffffffffffffffffffffffffffffffffffffffffffffffffffffffffff",
+    ]
+    .iter()
+    .map(|h| hex32(h))
+    .collect()
+}
+
+/// (identity key bytes, signature) that verifies over `msg` under ed25519-dalek's non-strict
+/// `verify` without any secret key, if one exists for this message.
+fn weak_forgery(idx: usize, msg: &[u8]) -> Option<([u8; 32], [u8; 64])> {
+    use ed25519_dalek::{Signature, Verifier, VerifyingKey};
+    let enc = weak_encodings();
+    let key = enc[idx % enc.len()];
+    let vk = VerifyingKey::from_bytes(&key).ok()?;
+    for r in enc.iter().take(8) {
+        let mut sig = [0u8; 64];
+        sig[..32].copy_from_slice(r);
+        if vk.verify(msg, &Signature::from_bytes(&sig)).is_ok() {
+            return Some((key, sig));
+        }
+    }
+    None
+}
 
 fn pb_bytes(field: u8, data: &[u8]) -> Vec<u8> {
     let mut v = vec![(field << 3) | 2];
@@ -206,6 +261,15 @@ fn forge(variant: &str, me: &Keypair, other: &Keypair, static_pub: &[u8]) -> (Ve
             sig[0] = 1;
             ([pb_bytes(1, &pb_pubkey(1, &k)), pb_bytes(2, &sig)].concat(), None)
         }
+        v if v.starts_with("weak_key:") => {
+            let idx: usize = v[9..].parse().unwrap_or(0);
+            match weak_forgery(idx, &[DOMAIN, static_pub].concat()) {
+                Some((k, sig)) => ([pb_bytes(1, &pb_pubkey(1, &k)), pb_bytes(2, &sig)].concat(), None),
+                // no forgery for this static key (the rogue grinds the key beforehand); an
+                // undecodable key: present it with a zero signature
+                None => ([pb_bytes(1, &pb_pubkey(1, &weak_encodings()[idx % 14])), pb_bytes(2, &[0u8; 64])].concat(), None),
+            }
+        }
         "sig_all_zero" => ([pb_bytes(1, &id), pb_bytes(2, &[0u8; 64])].concat(), None),
         _ => ([pb_bytes(1, &id), pb_bytes(2, &me.sign(&[]))].concat(), None),
     }
@@ -264,6 +328,21 @@ async fn rogue(mut ios: Vec<End>, dialer: bool, seed: u64, variant: String, me: 
         } else if variant == "replay_of_accepted_proof" {
             let first = statics.first().cloned().unwrap_or_default();
             rogue_hs(io, dialer, seed.wrapping_add(k as u64 * 7919), |_| forge("honest", &me, &other, &first).0).await?
+        } else if variant.starts_with("weak_key:") {
+            // grind the session static key until a secret-less signature exists for it
+            let idx: usize = variant[9..].parse().unwrap_or(0);
+            let mut rseed = seed.wrapping_add(k as u64 * 7919);
+            for j in 0..400u64 {
+                let cand = seed.wrapping_add(k as u64 * 7919).wrapping_add(j * 104_729);
+                let b = snow::Builder::with_resolver("Noise_XX_25519_ChaChaPoly_SHA256".parse().unwrap(), Box::new(RogueResolver(cand)));
+                if let Ok(kp) = b.generate_keypair() {
+                    if weak_forgery(idx, &[DOMAIN, &kp.public[..]].concat()).is_some() {
+                        rseed = cand;
+                        break;
+                    }
+                }
+            }
+            rogue_hs(io, dialer, rseed, |st| forge(&variant, &me, &other, st).0).await?
         } else {
             rogue_hs(io, dialer, seed.wrapping_add(k as u64 * 7919), |st| forge(&variant, &me, &other, st).0).await?
         };
